@@ -148,11 +148,30 @@ fn ab(x: &Sx) -> R<AB> {
             let (j, inner) = (dur(j)?, ab(inner)?);
             Rc::from(inner.clone_with_jitter(j))
         }
-        ("sum", [l]) => Rc::new(each(l, ab)?),
+        // an even number of components: through the implementation for slices (`impl ArrivalBound for [T]`), otherwise the one for Vec
+        ("sum", [l]) => {
+            let v = each(l, ab)?;
+            if v.len() % 2 == 0 { Rc::new(ViaSlice(v)) } else { Rc::new(v) }
+        }
         ("sum2", [x1, x2]) => Rc::new(arrival::sum_of(ab(x1)?, ab(x2)?)),
         _ => return bad("AB", h, a),
     };
     Ok(v)
+}
+
+/// Routes every query through `impl<T: ArrivalBound> ArrivalBound for [T]`.
+struct ViaSlice(Vec<AB>);
+
+impl ArrivalBound for ViaSlice {
+    fn number_arrivals(&self, delta: Duration) -> usize {
+        self.0[..].number_arrivals(delta)
+    }
+    fn steps_iter<'a>(&'a self) -> Box<dyn Iterator<Item = Duration> + 'a> {
+        self.0[..].steps_iter()
+    }
+    fn clone_with_jitter(&self, jitter: Duration) -> Box<dyn ArrivalBound> {
+        self.0[..].clone_with_jitter(jitter)
+    }
 }
 
 fn curve(x: &Sx) -> R<arrival::Curve> {
@@ -224,9 +243,34 @@ fn cm(x: &Sx) -> R<CM> {
         ("multiframe", [l]) => Rc::new(wcet::Multiframe::new(svcs(l)?)),
         ("ccurve", [c]) => Rc::new(wcurve(c)?),
         ("cextrap", [c]) => Rc::new(wcet::ExtrapolatingCurve::new(wcurve(c)?)),
+        // forwards job_cost_iter only: the trait's provided cost_of_jobs / least_wcet run
+        ("default_cm", [c]) => Rc::new(DefaultCostModel(cm(c)?)),
         _ => return bad("CM", h, a),
     };
     Ok(v)
+}
+
+struct DefaultCostModel(CM);
+
+impl JobCostModel for DefaultCostModel {
+    fn job_cost_iter<'a>(&'a self) -> Box<dyn Iterator<Item = Service> + 'a> {
+        self.0.job_cost_iter()
+    }
+}
+
+/// Forwards the required methods only: the trait's provided service_needed / service_needed_by_n_jobs run.
+struct DefaultRequestBound(RB);
+
+impl RequestBound for DefaultRequestBound {
+    fn least_wcet_in_interval(&self, delta: Duration) -> Service {
+        self.0.least_wcet_in_interval(delta)
+    }
+    fn steps_iter<'a>(&'a self) -> Box<dyn Iterator<Item = Duration> + 'a> {
+        self.0.steps_iter()
+    }
+    fn job_cost_iter<'a>(&'a self, delta: Duration) -> Box<dyn Iterator<Item = Service> + 'a> {
+        self.0.job_cost_iter(delta)
+    }
 }
 
 fn wcurve(x: &Sx) -> R<wcet::Curve> {
@@ -313,6 +357,7 @@ fn rbv(x: &Sx) -> R<RBV> {
         ("rbf", [b, c]) => RBV::Plain(Rc::new(demand::RBF::new(ab(b)?, cm(c)?))),
         ("agg", [l]) => RBV::Agg(Rc::new(demand::Aggregate::new(each(l, rb)?))),
         ("slice", [l]) => RBV::SliceOf(Rc::new(OwnedSlice::new(each(l, rb)?))),
+        ("default_rb", [r]) => RBV::Plain(Rc::new(DefaultRequestBound(rb(r)?))),
         ("boxed", [r]) => {
             let boxed: Box<dyn RequestBound> = Box::new(rb(r)?);
             RBV::Plain(Rc::new(boxed))
